@@ -74,9 +74,10 @@ type CrashDB struct {
 	Occ    int
 	byKind map[string]int
 	dead   bool
-	gen    int    // current incarnation (see Handle)
-	owner  uint64 // goroutine that armed the window: only it "is" the process that dies
-	calls  int    // write calls of the armed window, discarded ones included
+	gen    int             // current incarnation (see Handle)
+	pfx    map[byte][]byte // cache of the current tree-database prefixes (keys {1} and {2})
+	owner  uint64          // goroutine that armed the window: only it "is" the process that dies
+	calls  int             // write calls of the armed window, discarded ones included
 	Log    []WriteRec
 	Lost   *WriteRec // the write the process died in (set at the crash point)
 	Empty  int       // empty batches seen while armed (not numbered)
@@ -219,25 +220,68 @@ func (c *CrashDB) NewHandle() *Handle {
 	return &Handle{DB: c.DB, C: c, gen: c.gen}
 }
 
+// fast decides without classifying: writes of an earlier incarnation are discarded, writes outside
+// an armed window are applied.
+func (c *CrashDB) fast(gen int, keys ...[]byte) (handled, apply bool) {
+	c.mu.Lock()
+	defer c.mu.Unlock()
+	for _, k := range keys {
+		if len(k) == 1 {
+			c.pfx = nil // a tree-database prefix is (possibly) being changed
+		}
+	}
+	if gen != c.gen {
+		return true, false
+	}
+	if !c.armed {
+		return true, true
+	}
+	return false, false
+}
+
 func (h *Handle) Set(k, v []byte) error {
+	if handled, apply := h.C.fast(h.gen, k); handled {
+		if apply {
+			return h.C.DB.Set(k, v)
+		}
+		return nil
+	}
 	if h.C.gate(h.gen, h.C.classify([]KeyOp{{Key: cp(k), Val: cp(v)}}, false)) {
 		return h.C.DB.Set(k, v)
 	}
 	return nil
 }
 func (h *Handle) SetSync(k, v []byte) error {
+	if handled, apply := h.C.fast(h.gen, k); handled {
+		if apply {
+			return h.C.DB.SetSync(k, v)
+		}
+		return nil
+	}
 	if h.C.gate(h.gen, h.C.classify([]KeyOp{{Key: cp(k), Val: cp(v)}}, false)) {
 		return h.C.DB.SetSync(k, v)
 	}
 	return nil
 }
 func (h *Handle) Delete(k []byte) error {
+	if handled, apply := h.C.fast(h.gen, k); handled {
+		if apply {
+			return h.C.DB.Delete(k)
+		}
+		return nil
+	}
 	if h.C.gate(h.gen, h.C.classify([]KeyOp{{Del: true, Key: cp(k)}}, false)) {
 		return h.C.DB.Delete(k)
 	}
 	return nil
 }
 func (h *Handle) DeleteSync(k []byte) error {
+	if handled, apply := h.C.fast(h.gen, k); handled {
+		if apply {
+			return h.C.DB.DeleteSync(k)
+		}
+		return nil
+	}
 	if h.C.gate(h.gen, h.C.classify([]KeyOp{{Del: true, Key: cp(k)}}, false)) {
 		return h.C.DB.DeleteSync(k)
 	}
@@ -285,7 +329,17 @@ func (b *crashBatch) write(sync bool) error {
 		b.c.mu.Unlock()
 		return nil
 	}
-	if !b.c.gate(b.gen, b.c.classify(b.ops, true)) {
+	var keys [][]byte
+	for _, o := range b.ops {
+		if len(o.Key) == 1 {
+			keys = append(keys, o.Key)
+		}
+	}
+	if handled, apply := b.c.fast(b.gen, keys...); handled {
+		if !apply {
+			return nil
+		}
+	} else if !b.c.gate(b.gen, b.c.classify(b.ops, true)) {
 		return nil
 	}
 	ib := b.c.DB.NewBatch()
@@ -422,8 +476,23 @@ func (c *CrashDB) current(key []byte) bool {
 	if len(key) < 10 {
 		return true
 	}
-	cur, err := c.DB.Get([]byte{key[0]})
-	if err != nil || cur == nil {
+	c.mu.Lock()
+	cur, ok := c.pfx[key[0]]
+	c.mu.Unlock()
+	if !ok {
+		var err error
+		cur, err = c.DB.Get([]byte{key[0]})
+		if err != nil {
+			return true
+		}
+		c.mu.Lock()
+		if c.pfx == nil {
+			c.pfx = map[byte][]byte{}
+		}
+		c.pfx[key[0]] = cur
+		c.mu.Unlock()
+	}
+	if cur == nil {
 		return true
 	}
 	return bytes.Equal(cur, key[:9])
